@@ -86,7 +86,7 @@ def run(ctx):
     rnd = random.Random(ctx.seed)
     nrand = 6000 if thorough else 700
     for i in range(nrand):
-        progs.append(sp.random_program(rnd, rnd.randint(4, 60), 'r%d' % i))
+        progs.append(sp.random_program(rnd, rnd.randint(4, 60), 'r%d' % i, variants=True))
     ninv = 1500 if thorough else 240
     for i in range(ninv):
         progs.append(sp.random_program(rnd, rnd.randint(3, 20), 'bad%d' % i,
